@@ -24,7 +24,14 @@ def scratch():
     if _scratch is None:
         _scratch = os.path.join(VERIF, ".run", str(os.getpid()))
         os.makedirs(_scratch, exist_ok=True)
-        atexit.register(shutil.rmtree, _scratch, True)
+        owner = os.getpid()
+
+        def _cleanup(path=_scratch):
+            # forked worker processes inherit this handler: only the creating process may remove the directory
+            if os.getpid() == owner:
+                shutil.rmtree(path, True)
+
+        atexit.register(_cleanup)
     return _scratch
 
 
@@ -34,7 +41,11 @@ class TLCError(Exception):
         self.out = out
 
 
-_seq = [0]
+import itertools
+import threading
+
+_seq = itertools.count(1)
+_seq_lock = threading.Lock()
 
 
 def _classpath():
@@ -48,9 +59,10 @@ def _classpath():
 
 def run(module, cfg, env=None, workers=1, args=(), timeout=3600, heap="4g", spec_dir=SPEC, text=None):
     """run TLC on spec/<module>.tla with config text `cfg`; returns dict(out, prints, states, distinct, wall)"""
-    _seq[0] += 1
+    with _seq_lock:
+        k = next(_seq)
     sc = scratch()
-    tag = "%s_%d_%d" % (module, os.getpid(), _seq[0])
+    tag = "%s_%d_%d" % (module, os.getpid(), k)
     cfgpath = os.path.join(sc, tag + ".cfg")
     with open(cfgpath, "w") as f:
         f.write(cfg)
